@@ -41,6 +41,12 @@ checks = {
  "C15": dict(level="exploration", technique="bounded exhaustive product (N x shapes x terminal sizes x key programs) on the real loop with a cycle oracle over the observed inserted words",
    text="Candidate sets of N in {1..12,16,17,25,36,37(,60)} values in 9 shapes (plain, varied length, described, aliased by shared description, tags, mixed, long, wide glyphs) x widths {20,40,80(,131)} x heights {10,24} x 5 key programs (forward 2N+1, backward 2N+1, forward N+k then backward N+k) x 2 buffers: every inserted word is a candidate, every window of N presses in one direction is duplicate-free, press N+1 equals press 1, N=1 is accepted at once.",
    note="Buffers are empty or a prefix shared by all candidates ('offered' means after the documented prefix filter).", ref="7 C15"),
+ "C04": dict(level="model_checking", technique="explicit-state BFS over edit sequences on narrow terminals (state = reflective dump + emulator grid) with a screen oracle evaluated at every wait against an independent reference renderer; two erase-at-margin terminal models",
+   text="BFS to depth 3-4 (thorough 4-5) over 19 edit/movement actions (narrow, wide and combining glyphs, TAB, newline, pastes of W-1/W/W+1 glyphs, deletes, kills, cursor and screen-line movements, clear-screen, transpose) on 6 (9) terminal/prompt scenarios (widths 8, 11, 20; empty, 2-, 5-column, coloured, two-line and W-1 prompts; thorough: 6-row terminal, numbered multiline column, autosuggestion). At every main-loop wait: every input cell shows the expected glyph, the rest of the input rows and the rows below are blank, the terminal cursor is on the buffer cursor's cell.",
+   note="Terminal = the harness' xterm-compatible emulator (1345/1352 sessions identical to tmux 3.3a, the rest explained); an erase issued at a pending wrap is accepted under either common behaviour. Four known findings, identified by the geometry of the buffer.", ref="7 C04"),
+ "C11": dict(level="exploration", technique="full bounded product of exit paths x modes x buffer shapes x cursor x width x prompt-transient on the real loop; termios compared on the pty, final cursor/row/cursor-style on the emulator",
+   text="17 exit paths (accept variants, multi-line accept, insert-comment, C-c, abort, EOF commands, edit-and-execute with failing/keeping/appending editor, autosuggest-execute, stdin EOF and error, panic inside a user-registered command) x 4 modes x 9 buffer shapes (empty ... wrapped, multi-line, hint, menu, isearch) x 3 cursor positions x 2 widths x prompt-transient off/on: whenever the call ends, termios is unchanged, the cursor is at column 0 of a blank row strictly below every row that held input, and the last cursor style is the user default.",
+   note="Input rows computed by the reference renderer anchored on the terminal cursor at each wait, adjusted for scrolling.", ref="7 C11"),
  "C10": dict(level="fault_enumeration", engine="pure", technique="exhaustive crash-point enumeration: every byte offset of an append truncated on a real file, reopen, append, reopen, against a list reference model",
    text="All write histories up to the stated length over a 15-line alphabet (quotes, newlines, controls, multi-byte, U+2028, >64 KiB, blank, duplicates, JSON look-alikes) are written through the real file-backed history; the file is reopened and compared with the reference list; then every byte offset of the last append (thorough: of every append) is used as a crash point: truncate, reopen, append through a fresh instance, reopen.",
    note="Crash model = a byte prefix of a single O_APPEND write survives; fsync/power-loss reordering is outside the statement. Offsets inside the 70000-byte record are a stated subset.", ref="7 C10"),
